@@ -220,6 +220,45 @@ def run(rep):
                        f"field `{fld['name']}` of {e}::{v} is not part of the CSE expression: instructions differing only "
                        "in it would be merged")
     rep.floor("R5-cse-key-complete", 15)
+    # ---- R9: fixpoint discipline of the value-numbering loop ---------------------------------------------------------
+    # cse() iterates `while changed` until no value number changes. Every write to the iterated state (vntable.value_map) inside
+    # the loop must be able to raise `changed`; a write that does not stops the iteration while an earlier block argument still
+    # holds its optimistic value number, and that argument is then replaced by its initial value.
+    tcse = tab.tree(CSE)
+    fcse = tab.fn(tcse, "cse")
+    loops = [n for n in tab.walk(fcse["body"]) if n.get("k") == "While" and tab.show(n["cond"]) == "changed"]
+    if len(loops) != 1:
+        raise AnalysisError(f"cse(): expected one `while changed` loop, found {len(loops)}")
+    lp = loops[0]
+
+    def chain_to(root, target):
+        stack = [(root, [])]
+        while stack:
+            node, path = stack.pop()
+            if node is target:
+                return path
+            for v_ in (node.values() if isinstance(node, dict) else node if isinstance(node, list) else []):
+                if isinstance(v_, (dict, list)):
+                    stack.append((v_, path + ([node] if isinstance(node, dict) else [])))
+        return []
+    writes = [n for n in tab.walk(lp["body"]) if n.get("k") == "MethodCall" and n["method"] in ("insert", "entry", "remove", "extend", "clear") and
+              tab.show(n["recv"]).endswith("value_map")]
+    n9 = 0
+    for w in writes:
+        if w["method"] == "entry":
+            continue  # the lookup of the entry; the write through it is the nested insert
+        n9 += 1
+        path = chain_to(lp["body"], w)
+        raises = False
+        for a in path:
+            if a.get("k") in ("Assign", "Binary") and tab.show(a.get("left") or {}) == "changed":
+                raises = True  # `changed |= map.insert(..) != Some(vn)` / `changed = changed || ..`
+            if a.get("k") == "Block" and any(st.get("k") == "Assign" and tab.show(st["left"]) == "changed" and tab.show(st["right"]).lower() == "true" for st in a["stmts"]):
+                raises = True  # `{ changed = true; map.insert(..) }`
+        rep.ob("R9-fixpoint-write-raises-changed", f"cse|value_map.{w['method']}#{n9}", raises, CSE, w["l"],
+               "a write to the value-number table inside the `while changed` loop cannot set `changed`: the fixpoint iteration can stop although a value number "
+               "still changed in the last round")
+    rep.floor("R9-fixpoint-write-raises-changed", 2, n9)
     # ... and in the order of the instruction: two instructions are merged when their keys are equal, so the key of a
     # non-commutative operation (cmp lt, sub, div, shifts, gep indices ...) must keep its operands in place. No sorting, swapping or
     # min/max of the operand value numbers; the binders appear in the key in the order of the instruction's fields.
